@@ -5,8 +5,9 @@ open Lean Pywbem.Proto Pywbem.Model Pywbem.Model.CimJson Pywbem.Model.XmlText Py
 
 /-! C17 driver.  One input line = one listener history:
   {"cap":n, "cfg":{"validateLen":b,"encodeDetails":b,"catchAll":b}?, "events":[ev,…]}
-  ev = {"ev":"deliver"}
-     | {"ev":"req","method":cps,"headers":[[cps,cps],…],"blen":n,          octets sent after the header section
+  ev = {"ev":"deliver"} | {"ev":"shut","cid":n,"server":cps,"date":cps}   (a stalled peer stops sending)
+     | {"ev":"req","cid":n,"stall":bool?,   (stall: the peer keeps its sending side open; body = octets sent so far)
+        "method":cps,"headers":[[cps,cps],…],"blen":n,          octets sent after the header section
         "xmlmode":"par","hex":"…"   the request parser is the model's own parseBytes on the real octets (else:)
         "k":n,"tree":tt|null,       expat+CIMContentHandler result for the first k octets (null = SAX error,
         "xmlexc":name|null,           or with xmlexc: that exception class escaped from xml.sax)
@@ -113,26 +114,43 @@ def rspJ (r : Response) : Json :=
 
 def idsJ (l : List Item) : Json := Json.arr (l.map (fun p => cpsToJson p.1)).toArray
 
-def runHist (cfg : Cfg) : LState → List Json → List Json → LState × List Json
-  | s, [], acc => (s, acc.reverse)
-  | s, e :: es, acc =>
+def obsJ (cfg : Cfg) (e : Json) (E : Env) (r : Req) (o : Obs) : Json :=
+  match o with
+  | .response rsp => Json.mkObj [("rsp", rspJ rsp),
+      ("bodytree", if rsp.status == 200 then optToJson xmlToJson (Pywbem.Model.XmlParse.par rsp.body) else Json.null),
+      ("wire", cpsToJson (wireHead ((getChars e "server").getD []) ((getChars e "date").getD []) rsp)),
+      ("nread", if r.method = "POST".toList then optToJson (fun (n : Nat) => (n : Json)) (bytesRead cfg E r) else Json.null)]
+  | .stdlib => Json.mkObj [("stdlib", true)]
+  | .dropped x => Json.mkObj [("dropped", x.name)]
+  | .none => Json.null
+
+/-- the history through the thread model `cstep`: a "req" event is a connection (complete, or with "stall":true a
+    peer that keeps sending open); "shut" ends a stalled one.  One output entry per event (null = no answer yet). -/
+def runHist (cfg : Cfg) : CState → List Json → List Json → CState × List Json
+  | cs, [], acc => (cs, acc.reverse)
+  | cs, e :: es, acc =>
     match getStr e "ev" with
-    | some "deliver" =>
-      let (s', _) := step cfg s .deliver
-      runHist cfg s' es (Json.null :: acc)
+    | some "deliver" => runHist cfg (cstep cfg cs .deliver).st es (Json.null :: acc)
+    | some "shut" =>
+      let id := (getNat e "cid").getD 0
+      match cs.pending.find? (fun c => c.id == id) with
+      | none => runHist cfg cs es (Json.mkObj [("bad", "shut of a connection that is not pending")] :: acc)
+      | some c =>
+        let o := cstep cfg cs (.shut id)
+        let oj := match o.obs with
+          | [x] => obsJ cfg e c.E { c.req with body := c.got } x
+          | _ => Json.null
+        runHist cfg o.st es (oj :: acc)
     | _ =>
       let E := envOfJson e
       let r := reqOfJson e
-      let (s', o) := step cfg s (.request E r)
-      let oj := match o with
-        | .response rsp => Json.mkObj [("rsp", rspJ rsp),
-            ("bodytree", if rsp.status == 200 then optToJson xmlToJson (Pywbem.Model.XmlParse.par rsp.body) else Json.null),
-            ("wire", cpsToJson (wireHead ((getChars e "server").getD []) ((getChars e "date").getD []) rsp)),
-            ("nread", if r.method = "POST".toList then optToJson (fun (n : Nat) => (n : Json)) (bytesRead cfg E r) else Json.null)]
-        | .stdlib => Json.mkObj [("stdlib", true)]
-        | .dropped x => Json.mkObj [("dropped", x.name)]
-        | .none => Json.null
-      runHist cfg s' es (oj :: acc)
+      let c : Conn := { id := (getNat e "cid").getD 0, E := E, method := r.method, headers := r.headers, got := r.body,
+                        eof := !((getBool e "stall").getD false) }
+      let o := cstep cfg cs (.connect c)
+      let oj := match o.obs with
+        | [x] => obsJ cfg e E r x
+        | _ => Json.null
+      runHist cfg o.st es (oj :: acc)
 
 def handleJ (j : Json) : Json :=
   match getStr j "op" with
@@ -146,13 +164,26 @@ def handleJ (j : Json) : Json :=
     let s := (getChars j "s").getD []
     Json.mkObj [("out", Json.arr ((tokensC (s.length + 1) s).map (fun p => Json.arr #[cpsToJson p.1, cpsToJson p.2])).toArray),
                 ("ok", contentTypeOk s)]
+  | some "serve" =>
+    -- one connection from the raw request line on: {"op":"serve","line":cps,"hdrfault":bool, + the fields of a "req" event}
+    let E := envOfJson j
+    let r := reqOfJson j
+    let out := (serve (cfgOfJson j) E (LState.init 0) ((getChars j "line").getD []) ((getBool j "hdrfault").getD false)
+      r.headers r.body).2
+    Json.mkObj [("out", match out with
+      | .silent => Json.arr #["silent"]
+      | .bare c => Json.arr #["bare", (c : Nat)]
+      | .bareBody => Json.arr #["barebody"]
+      | .status rsp => Json.arr #["status", (rsp.status : Nat)]
+      | .stdlib c => Json.arr #["stdlib", (c : Nat)]
+      | .dropped e => Json.arr #["dropped", e.name])]
   | some "utf8" => Json.mkObj [("out", optToJson cpsToJson (utf8Decode (hexBytes ((getStr j "hex").getD "").toList)))]
   | some "int" => Json.mkObj [("out", optToJson intToJson (pyInt ((getChars j "s").getD [])))]
   | _ =>
     let cfg := cfgOfJson j
-    let s0 := LState.init ((getNat j "cap").getD 0)
-    let (s, obs) := runHist cfg s0 (getArr j "events") []
-    Json.mkObj [("obs", Json.arr obs.toArray), ("queue", idsJ s.queue), ("accepted", idsJ s.accepted),
-                ("delivered", idsJ s.delivered)]
+    let s0 : CState := { ls := LState.init ((getNat j "cap").getD 0), pending := [] }
+    let (cs, obs) := runHist cfg s0 (getArr j "events") []
+    Json.mkObj [("obs", Json.arr obs.toArray), ("queue", idsJ cs.ls.queue), ("accepted", idsJ cs.ls.accepted),
+                ("delivered", idsJ cs.ls.delivered), ("pending", (cs.pending.length : Nat))]
 
 def main : IO Unit := runDriver handleJ
